@@ -50,7 +50,7 @@ prop("C20",
 
 prop("C19",
      [r_hdrt.rule_catchall, r_hdrt.rule_total, r_hdrt.rule_steer_lookup, r_hdrt.rule_no_state, r_hdrt.rule_flag_forward,
-      r_sec.rule_end_test, r_sec.rule_scan],
+      r_sec.rule_end_test, r_sec.rule_scan, r_sec.rule_line_model],
      "Error-discipline analysis of the header loop (reader.parse_header_items_section): the call that parses a raw "
      "line is inside a try with a catch-all handler; by control dependence the handler raises only when "
      "ignore_header_errors is false, then raises LASHeaderError whose message derives (provenance) from the line, "
@@ -151,7 +151,7 @@ prop("C17",
 
 prop("C08",
      [r_num.rule_numlit, r_num.rule_finite_default, r_num.rule_exempt, r_num.rule_curve_raw, r_wl.rule_ord_bijection,
-      r_num.rule_read_no_rewrite, r_sec.rule_route],
+      r_num.rule_read_no_rewrite, r_sec.rule_route, r_num.rule_numlit_complete, r_data.rule_read_subs],
      "Guard-language analysis: every text->number constructor in SectionParser.num (int/float/np.int64/np.float64 on "
      "the argument) is reachable, from the entry or from any later re-definition of the value, only across the edge of "
      "a test on which `<regex>.fullmatch(value)` succeeded (truth table of the test over match/is-str atoms; CFG with "
@@ -172,7 +172,8 @@ prop("C08",
 
 prop("C05",
      [r_sec.rule_scan, r_sec.rule_convention, r_sec.rule_end_test, r_sec.rule_case, r_sec.rule_steer,
-      r_sec.rule_title_pred, r_sec.rule_route, r_sec.rule_reseek, r_sec.rule_section_type, r_sec.rule_every_section],
+      r_sec.rule_title_pred, r_sec.rule_route, r_sec.rule_reseek, r_sec.rule_section_type, r_sec.rule_every_section,
+      r_sec.rule_other_verbatim, r_hdrt.rule_no_state, r_hdrt.rule_every_line, r_sec.rule_line_model],
      "Section-interval analysis. The title scan tests every line it reads (every readline() is assigned to the scanned "
      "variable, no nested consumption), advances its counter once per line and records a section start under the title "
      "predicate only (SEC.SCAN); all recorded section ends have the same offset from the boundary line (affine "
@@ -199,7 +200,8 @@ prop("C05",
 
 prop("C06",
      [r_data.rule_null_guard, r_data.rule_null_table, r_data.rule_null_write, r_sec.rule_steer, r_data.rule_counter,
-      r_data.rule_null_flat, r_num.rule_numlit],
+      r_data.rule_null_flat, r_num.rule_numlit, r_wl.rule_ord_table, r_wl.rule_key_norm, r_wl.rule_measure, r_lp.rule_views,
+      r_wrf.rule_determinism],
      "Guard analysis of the NULL->NaN store in LASFile.read: the store `column[mask] = nan` must exist, its mask must be "
      "an exact `column == <value taken from ~Well NULL>` with no call and no tolerance/rounding function in its "
      "provenance (NULL.EXACT), and by control dependence it executes exactly under: the policy flag (third result of "
@@ -218,7 +220,8 @@ prop("C06",
 prop("C07",
      [r_data.rule_wrap_count, r_data.rule_tokenizer, r_sec.rule_line_normalise, r_data.rule_counter, r_data.rule_reshape,
       r_data.rule_split, r_sec.rule_reseek, r_sec.rule_end_test, r_si.rule_compare, r_sec.rule_content_only_effects,
-      r_data.rule_orient, r_sec.rule_case, r_sec.rule_steer, r_data.rule_engine_select],
+      r_data.rule_orient, r_sec.rule_case, r_sec.rule_steer, r_data.rule_engine_select, r_hdrt.rule_every_line,
+      r_data.rule_null_table, r_data.rule_tokens_kept],
      "Column binding analysis: under the assumption WRAP == YES with declared curves, an explicit-state search of "
      "LASFile.read shows that the n_columns argument of the reference engine is never the per-line count sniffed by "
      "inspect_data_section, and all tests on the WRAP value fold to the same predicate over 9 probe values "
@@ -240,7 +243,8 @@ prop("C01",
      [r_data.rule_wrap_count, r_data.rule_wrap_tokens, r_data.rule_null_write, r_data.rule_null_guard, r_data.rule_reshape,
       r_data.rule_counter, r_data.rule_null_flat, r_data.rule_read_subs, r_si.rule_compare, r_num.rule_numlit,
       r_data.rule_data_format, r_data.rule_wrap_consistent, r_wl.rule_ord_table, r_wl.rule_key_norm, r_sec.rule_section_type,
-      r_lp.rule_write_no_state, r_data.rule_options_readonly],
+      r_lp.rule_write_no_state, r_data.rule_options_readonly, r_sec.rule_scan, r_lp.rule_views, r_num.rule_numlit_complete,
+      r_sec.rule_line_model],
      "Write->read pairing clauses: lasio's own wrapped output is re-read with the declared curve count, never the sniffed "
      "per-line count (DATA.WRAP-COUNT, explicit-state search under WRAP == YES); the writer's TextWrapper has "
      "width=data_width, break_long_words=False, break_on_hyphens=False, so lines break only at the blanks between values "
@@ -256,7 +260,7 @@ prop("C01",
 prop("C09",
      [r_data.rule_tokenizer, r_data.rule_trim, r_sec.rule_title_pred, r_sec.rule_end_test, r_sec.rule_line_normalise,
       r_sec.rule_reseek, r_data.rule_wrap_count, r_sec.rule_convention, r_data.rule_orient, r_sec.rule_content_only_effects,
-      r_data.rule_read_subs, r_gr.rule_grammar, r_data.rule_engine_select],
+      r_data.rule_read_subs, r_gr.rule_grammar, r_data.rule_engine_select, r_data.rule_tokens_kept, r_data.rule_split],
      "Presentation-invariance clauses: the sniffer tokenises with the reader's DLM splitter (DATA.TOKENIZER); every "
      "splitter of the factory yields whitespace-free tokens - decided on the regex AST as a character set, or by strip() "
      "of each field - and comma splitting is positional (DATA.TRIM, DATA.SPLIT; COMMA and TAB trimming are recorded known "
@@ -275,7 +279,8 @@ prop("C09",
 prop("C02",
      [r_sec.rule_convention, r_sec.rule_end_test, r_sec.rule_line_normalise, r_data.rule_orient, r_data.rule_reshape,
       r_sec.rule_reseek, r_sec.rule_scan, r_data.rule_null_flat, r_data.rule_split, r_sec.rule_content_only_effects,
-      r_data.rule_read_subs, r_data.rule_wrap_count, r_data.rule_space_tokens, r_data.rule_fast_tokens, r_data.rule_null_table],
+      r_data.rule_read_subs, r_data.rule_wrap_count, r_data.rule_space_tokens, r_data.rule_fast_tokens, r_data.rule_null_table,
+      r_data.rule_null_guard, r_data.rule_tokens_kept, r_sec.rule_line_model],
      "Engine-agreement clauses: both engines get the same line window - one interval convention for every section end and "
      "the matching affine skip_header = first+1 / max_rows = last-first after seek(0) in the fast engine (SEC.CONVENTION, "
      "SEC.SCAN); the reference engine and the sniffer count every physical line once, test for the section end on every "
@@ -292,7 +297,7 @@ prop("C02",
 
 prop("C04",
      [r_gr.rule_grammar, r_gr.rule_select, r_gr.rule_strip, r_hdrt.rule_no_state, r_num.rule_finite_default, r_sec.rule_route,
-      r_sec.rule_title_pred, r_wl.rule_hdr_post],
+      r_sec.rule_title_pred, r_wl.rule_hdr_post, r_hdrt.rule_every_line],
      "Grammar summary by path enumeration: configure_metadata_patterns is enumerated over all consistent outcomes of its "
      "tests (same test text => same truth value), its pattern strings are constant-propagated, and each assembled "
      "pattern list is compared - as a canonical regex structure from re._parser: character classes as sets over a probe "
@@ -316,7 +321,7 @@ prop("C03",
      [r_wl.rule_measure, r_wl.rule_order_key, r_wl.rule_orig_mnem, r_wl.rule_template, r_wl.rule_hdr_post,
       r_wl.rule_ord_bijection, r_wl.rule_key_norm, r_gr.rule_grammar, r_gr.rule_select, r_gr.rule_strip, r_wrf.rule_standardize,
       r_hdrt.rule_no_state, r_si.rule_pk_state, r_num.rule_finite_default, r_num.rule_curve_raw, r_hdrt.rule_steer_lookup,
-      r_si.rule_pk_rebuild, r_si.rule_pk_list_restore],
+      r_si.rule_pk_rebuild, r_si.rule_pk_list_restore, r_wrf.rule_frame, r_sec.rule_other_verbatim, r_hdrt.rule_every_line],
      "Header write->read pairing clauses. Stage order per section in writer.write by CFG reachability: unit alignment / "
      "refresh -> normalisation by standardize_value -> width measurement -> formatting, no later stage followed by an "
      "earlier one (WR.MEASURE); every order lookup in the writer (5 call sites) is keyed by provenance by the item's "
